@@ -160,6 +160,7 @@ class Case:
     self.group, self.pos, self.geo = group, pos, geo
     self.cls, self.q, self.stream = group.cls, group.q, group.stream
     self.err = None
+    self.line_off, self.line_pos = 0, pos   # which driver line of the group / which call of that line
     self.impl = None        # list of np arrays (outputs)
     self.oracle = None      # same, from the stock layer
     self.stock_raw = None   # stock layer on the raw weights (no-quantizer clause)
@@ -170,23 +171,28 @@ class Case:
     G = self.group
     extra = ""
     if G.stream != "structured":
-      extra = " [%s #%d call %d/%d %s fmt=%s/%s forms=%s]" % (
+      extra = " [%s #%d call %d/%d %s fmt=%s/%s forms=%s%s]" % (
           G.stream, G.gid, self.pos + 1, len(G.cases), G.mode, G.fmts[0][9:], G.fmts[1][9:],
-          json.dumps(G.forms, sort_keys=True))
+          json.dumps(G.forms, sort_keys=True),
+          "" if G.reweigh is None else " set_weights before call %d" % (G.reweigh + 1))
     return "%s %s %s%s" % (self.cls, json.dumps(self.geo, sort_keys=True), json.dumps(self.q, sort_keys=True), extra)
 
 
 class Group:
   """one layer OBJECT and the calls made on it.
   geo: the constructor-level geometry (+ per-call dims for single-call groups); calls: per-call dims;
-  mode: 'eager' (successive calls) | 'functional' (one shared layer on the branches of a functional model);
+  mode: 'eager' (successive calls) | 'functional' (one shared layer on the branches of a functional model) |
+        'dynamic' (one functional model with spatial / time dims None, called on every input in turn);
   fmts: (K.image_data_format() while constructing, ... while calling);
-  forms: argument forms {'q': 'string'|'object'|'used', 'ksz': 'asis'|'tuple'|'list'|'int', 'x': 'tensor'|'numpy'|'variable'}"""
+  forms: argument forms {'q': 'string'|'object'|'used', 'ksz': 'asis'|'tuple'|'list'|'int', 'x': 'tensor'|'numpy'|'variable',
+         'training': absent | True | False (the `training=` keyword of the call)}"""
   _n = 0
 
-  def __init__(self, cls, geo, q, calls=None, stream="structured", mode="eager", fmts=FMTS0, forms=None):
+  def __init__(self, cls, geo, q, calls=None, stream="structured", mode="eager", fmts=FMTS0, forms=None,
+               reweigh=None):
     self.cls, self.geo, self.q, self.stream, self.mode, self.fmts = cls, geo, q, stream, mode, tuple(fmts)
     self.forms = dict(forms or {})
+    self.reweigh = reweigh      # eager histories: `set_weights(new values)` right before the call of this index
     self.gid = Group._n
     Group._n += 1
     self.cases = [Case(self, i, dict(geo, **d)) for i, d in enumerate(calls or [{}])]
@@ -196,6 +202,7 @@ class Group:
     self.mask = None
     self.df = None
     self.ctor_df = None
+    self.skip = False
 
 
 def pick(rng, lst):
@@ -339,9 +346,10 @@ def kext(k, d):
   return (k - 1) * d + 1
 
 
-FORMS = [dict(q="string", ksz="asis", x="tensor"), dict(q="object", ksz="tuple", x="numpy"),
-         dict(q="used", ksz="list", x="variable"), dict(q="string", ksz="int", x="numpy"),
-         dict(q="object", ksz="asis", x="tensor")]
+FORMS = [dict(q="string", ksz="asis", x="tensor"), dict(q="object", ksz="tuple", x="numpy", training=False),
+         dict(q="used", ksz="list", x="variable"), dict(q="string", ksz="int", x="numpy", training=True),
+         dict(q="object", ksz="asis", x="tensor"), dict(q="string", ksz="tuple", x="tensor", training=True),
+         dict(q="used", ksz="asis", x="numpy", training=False)]
 ORDERS = [("channels_first", "channels_first"), ("channels_last", "channels_first"), ("channels_first", "channels_last")]
 
 
@@ -370,24 +378,32 @@ def gen_new(rng, tier):
     return FORMS[fi[0] % len(FORMS)]
 
   def add(cls, geo, q, calls, stream, mode="eager", fmts=FMTS0):
-    G.append(Group(cls, geo, q, calls=calls, stream=stream, mode=mode, fmts=fmts, forms=forms()))
+    # every other eager history of a weighted class gets NEW weight values before its last call
+    rw = None
+    if stream == "reuse" and mode == "eager" and len(calls) > 1 and cls not in ("activation", "avgpool2d", "globalavgpool2d") \
+        and len(G) % 2 == 0:
+      rw = len(calls) - 1
+    G.append(Group(cls, geo, q, calls=calls, stream=stream, mode=mode, fmts=fmts, forms=forms(), reweigh=rw))
 
   # ================================================================= reuse: histories on one object
   reps = 3 if not thorough else 6
   for j in range(reps):
-    mode = "functional" if j % 3 == 2 else "eager"
+    mode = ("eager", "dynamic", "functional")[j % 3]
     fb = 2  # functional models: one batch size on every branch
     B = lambda b: fb if mode == "functional" else b   # noqa: E731
+    # `dynamic`: ONE functional model whose spatial / time dims are None, called on every input in turn
+    # (classes whose calls differ in rank stay eager)
+    emode = "eager" if mode == "dynamic" else mode
     # ---- dense: ranks 2..5 on one object, input.shape[1] == units among them
     u, ind = 2 + j % 3, 2 + (j + 1) % 3
     shapes = [[[2, ind], [1, 3, ind], [2, u, ind], [1, 2, 2, 3, ind]], [[3, u, ind], [2, ind], [1, 2, u, ind]],
               [[2, 3, ind], [2, u, 2, ind]]][j % 3]
     add("dense", dict(units=u, use_bias=(j % 4 != 3), in_dim=ind), qsel(rng, SLOTS["dense"], j, auto=(j == 1)),
-        [dict(shape=s_) for s_ in shapes], "reuse", mode)
+        [dict(shape=s_) for s_ in shapes], "reuse", emode)
     # ---- activation: ranks 1..5
     shapes = [[[3], [2, 3], [1, 2, 2]], [[2, 1, 3, 2], [4], [1, 2, 1, 2, 2]], [[2, 3], [2, 2, 2, 1]]][j % 3]
     add("activation", {}, {"act": ["quantized_relu(4,1)", "quantized_tanh(4)", "quantized_bits(6,2,1)"][j % 3]},
-        [dict(shape=s_) for s_ in shapes], "reuse", mode)
+        [dict(shape=s_) for s_ in shapes], "reuse", emode)
     # ---- conv1d / sepconv1d
     for cls in ("conv1d", "sepconv1d"):
       pad = ("valid", "same", "causal")[(j + (cls == "sepconv1d")) % 3]
@@ -425,7 +441,8 @@ def gen_new(rng, tier):
     if j % 3 == 2:
       geo["data_format"] = "channels_first"
     add("avgpool2d", geo, qsel(rng, SLOTS["avgpool2d"], j + 1),
-        [dict(hw=h_, batch=B(b_), cin=c_) for h_, b_, c_ in zip(hws, (2, 1, 1), (2, 1, 3))][:2 if mode == "functional" else 3],
+        [dict(hw=h_, batch=B(b_), cin=2 if mode == "dynamic" else c_)
+         for h_, b_, c_ in zip(hws, (2, 1, 1), (2, 1, 3))][:2 if mode == "functional" else 3],
         "reuse", mode)
     # ---- global average pooling: the pool AREA changes between calls (and repeats)
     hws = [[[3, 3], [3, 3], [6, 5], [2, 2]], [[1, 5], [4, 6], [2, 3], [1, 5]], [[4, 4], [8, 8]]][j % 3]
@@ -434,11 +451,12 @@ def gen_new(rng, tier):
       geo["data_format"] = ("channels_last", "channels_first")[j % 2]
     for qi in (1, 2 + j):     # always at least one quantized-reciprocal object per history shape
       add("globalavgpool2d", geo, qsel(rng, SLOTS["globalavgpool2d"], qi),
-          [dict(hw=h_, batch=B(1 + (t + j) % 2), cin=1 + (t + j) % 3) for t, h_ in enumerate(hws)], "reuse", mode)
+          [dict(hw=h_, batch=B(1 + (t + j) % 2), cin=2 if mode == "dynamic" else 1 + (t + j) % 3)
+           for t, h_ in enumerate(hws)], "reuse", mode)
     # ---- scale shift
     shapes = [[[2, 3], [1, 2, 2], [3, 1, 2, 2]], [[1, 4], [2, 2, 3], [2, 2]], [[2, 3], [2, 2, 2]]][j % 3]
     add("scaleshift", dict(use_bias=(j % 2 == 0)), qsel(rng, SLOTS["scaleshift"], j),
-        [dict(shape=s_) for s_ in shapes], "reuse", mode)
+        [dict(shape=s_) for s_ in shapes], "reuse", emode)
     # ---- recurrent layers: batch and number of time steps change between calls
     for ci, cls in enumerate(RNN):
       hard = (j + ci) % 3 == 2
@@ -750,40 +768,70 @@ def run_feedforward(G):
     if cls in HAS_DF:
       # clause ctor_default: the same constructor arguments resolve to the same data format in both classes
       G.ctor_df = (str(getattr(ql, "data_format", None)), str(mk_stock(plain=True).data_format))
+      if G.ctor_df[0] != G.df:
+        # the quantized class resolves its data format differently from the harness' model of the constructor
+        # signatures: the inputs (shaped for G.df) are not inputs of this layer — reported as `ctor_default`
+        G.skip = True
+        G.lines = []
+        return
     model = None
-    if G.mode == "functional":
+    if G.mode in ("functional", "dynamic"):
       try:
-        ins = [tf.keras.Input(shape=x.shape[1:]) for x in xs]
-        model = tf.keras.Model(ins, [ql(t) for t in ins])
+        if G.mode == "dynamic":
+          shp = [None if (k_ != (len(xs[0].shape) - 2 if G.df == "channels_last" else 0)) else int(v)
+                 for k_, v in enumerate(xs[0].shape[1:])]
+          ins = tf.keras.Input(shape=shp)
+          model = tf.keras.Model(ins, ql(ins))
+        else:
+          ins = [tf.keras.Input(shape=x.shape[1:]) for x in xs]
+          model = tf.keras.Model(ins, [ql(t) for t in ins])
       except Exception as e:  # pylint: disable=broad-except
         for c in G.cases:
           catch(c, e)
     elif cls not in ("activation", "avgpool2d", "globalavgpool2d"):
       ql.build(xs[0].shape)
-    W = []
-    for w in ql.weights:
-      shp = [int(v) for v in w.shape]
-      W.append(dy(rng, shp, 16, -20, 20) if len(shp) > 1 or cls == "scaleshift" else dy(rng, shp, 16, -24, 24))
-    if W:
-      ql.set_weights(W)
+    def new_weights():
+      W_ = []
+      for w in ql.weights:
+        shp = [int(v) for v in w.shape]
+        W_.append(dy(rng, shp, 16, -20, 20) if len(shp) > 1 or cls == "scaleshift" else dy(rng, shp, 16, -24, 24))
+      if W_:
+        ql.set_weights(W_)
+      return W_
+
+    W = new_weights()
     G.W = W
     n_w = len(W)
+    epochs = [(W, [])]          # (weight values, positions of the calls made with them)
+    ckw = {"training": G.forms["training"]} if "training" in G.forms else {}
     # ---------------------------------------------------------------- the calls, one after the other
     K.set_image_data_format(G.fmts[1])
     if G.mode == "functional":
+      epochs[0][1].extend(range(len(G.cases)))
       if model is not None:
         try:
-          ys = model([form_x(x, xform) for x in xs])
+          ys = model([form_x(x, xform) for x in xs], **ckw)
           ys = ys if isinstance(ys, (list, tuple)) else [ys]
           for c, y in zip(G.cases, ys):
             c.impl = [np.asarray(y, dtype=np.float32)]
         except Exception as e:  # pylint: disable=broad-except
           for c in G.cases:
             catch(c, e)
+    elif G.mode == "dynamic":
+      epochs[0][1].extend(range(len(G.cases)))
+      for c, x in zip(G.cases, xs):
+        if model is not None:
+          try:
+            c.impl = [np.asarray(model(form_x(x, xform), **ckw), dtype=np.float32)]
+          except Exception as e:  # pylint: disable=broad-except
+            catch(c, e)
     else:
       for c, x in zip(G.cases, xs):
+        if G.reweigh is not None and c.pos == G.reweigh and n_w:
+          epochs.append((new_weights(), []))
+        epochs[-1][1].append(c.pos)
         try:
-          c.impl = [np.asarray(ql(form_x(x, xform)), dtype=np.float32)]
+          c.impl = [np.asarray(ql(form_x(x, xform), **ckw), dtype=np.float32)]
         except Exception as e:  # pylint: disable=broad-except
           catch(c, e)
     try:
@@ -799,80 +847,85 @@ def run_feedforward(G):
     act = (lambda t: t) if q.get("act") is None else fresh_q(q["act"])
     wslots = [sl_ for sl_ in SLOTS[cls] if sl_ not in ("state", "average")]
     tr = [sl_ in TRAINABLE.get(cls, []) for sl_ in wslots]
-    QW = [apply_q(s, w, t) for s, w, t in zip(wq, W, tr)]
-    G.qrecip = {}
-    for c, x, sl in zip(G.cases, xs, sls):
-      xt = tf.constant(x)
-      if cls == "activation":
-        c.oracle = [np.asarray(act(xt), dtype=np.float32)]
-      elif cls == "scaleshift":
-        out = xt * tf.constant(QW[0])
-        if g["use_bias"]:
-          out = tf.constant(QW[1]) + out
-        c.oracle = [np.asarray(act(out), dtype=np.float32)]
-        out = xt * tf.constant(W[0])
-        if g["use_bias"]:
-          out = tf.constant(W[1]) + out
-        c.stock_raw = [np.asarray(out, dtype=np.float32)]
-      elif cls == "avgpool2d":
-        c.stock_raw = [np.asarray(sl(xt), dtype=np.float32)]
-        if q["average"] is None:
-          c.oracle = [np.asarray(act(sl(xt)), dtype=np.float32)]
-        else:
-          area = int(np.prod(g["pool"]))
-          qr = np.float32(np.asarray(fresh_q(q["average"])(1.0 / area)))
-          G.qrecip[area] = qr
-          c.oracle = [np.asarray(act(sl(xt * np.float32(area)) * qr), dtype=np.float32)]
-      elif cls == "globalavgpool2d":
-        c.stock_raw = [np.asarray(sl(xt), dtype=np.float32)]
-        if q["average"] is None:
-          c.oracle = [np.asarray(act(sl(xt)), dtype=np.float32)]
-        else:
-          area = int(np.prod(c.geo["hw"]))      # of THIS call
-          qr = np.float32(np.asarray(fresh_q(q["average"])(1.0 / area)))
-          G.qrecip[area] = qr
-          ax = (1, 2) if G.df == "channels_last" else (2, 3)
-          s = np.sum(x.astype(np.float64), axis=ax, keepdims=g["keepdims"]).astype(np.float32)   # exact: short dyadics
-          c.oracle = [np.asarray(act(tf.constant(s * qr)), dtype=np.float32)]
-      else:
-        try:
-          sl.build(x.shape)
-          QWm = list(QW)
-          if cls == "conv2d" and G.mask is not None:
-            QWm[0] = QW[0] * G.mask.reshape(G.mask.shape + (1, 1))
-          sl.set_weights(QWm)
-          c.oracle = [np.asarray(act(sl(xt)), dtype=np.float32)]
-          sl.set_weights(W)
-          c.stock_raw = [np.asarray(sl(xt), dtype=np.float32)]
-        except Exception as e:  # pylint: disable=broad-except
-          raise core.InfraError("stock %s layer failed on %s: %s" % (cls, c.label, str(e)[:300]))
-    # ---------------------------------------------------------------- the model's input line (one per OBJECT)
-    quant = []
-    slots = SLOTS[cls]
-    for i, s in enumerate(slots):
-      qs = q.get(s)
-      if s == "average":
-        if qs is None:
-          quant.append(None)
-        else:
-          quant.append({"k": "table", "e": [[{"s": [], "d": [core.rj(F(1, a))]}, tj(np.float32(v).reshape(()))]
-                                            for a, v in sorted(G.qrecip.items())]})
-        continue
-      t = s in TRAINABLE.get(cls, [])
-      if i >= len(W):
-        quant.append(None if qs is None else qspec(qs, [], t))
-        continue
-      args = [W[i]]
-      if cls == "sepconv1d" and i < 2:
-        args = [W[i][None, ...], W[i]]      # the layer quantizes the kernel expanded to 4-D
-      quant.append(qspec(qs, args, t))
-    line = {"op": "layer", "cls": cls, "cfg": cfg_of(G), "xs": [tj(x) for x in xs], "weights": [tj(w) for w in W],
-            "quant": quant, "actv": [qspec(q.get("act"))]}
-    if cls == "conv2d" and G.mask is not None:
-      line["mask"] = tj(G.mask.reshape(G.mask.shape + (1, 1)))
     if q.get("act") is not None and q["act"] not in SPEC:
       raise core.InfraError("activation %s has no element-wise model" % q["act"])
-    G.lines = [line]
+    G.lines = []
+    for ei, (W, members) in enumerate(epochs):
+      QW = [apply_q(s, w, t) for s, w, t in zip(wq, W, tr)]
+      qrecip = {}
+      for lp, pos in enumerate(members):
+        c, x, sl = G.cases[pos], xs[pos], sls[pos]
+        c.line_off, c.line_pos = ei, lp
+        xt = tf.constant(x)
+        if cls == "activation":
+          c.oracle = [np.asarray(act(xt), dtype=np.float32)]
+        elif cls == "scaleshift":
+          out = xt * tf.constant(QW[0])
+          if g["use_bias"]:
+            out = tf.constant(QW[1]) + out
+          c.oracle = [np.asarray(act(out), dtype=np.float32)]
+          out = xt * tf.constant(W[0])
+          if g["use_bias"]:
+            out = tf.constant(W[1]) + out
+          c.stock_raw = [np.asarray(out, dtype=np.float32)]
+        elif cls == "avgpool2d":
+          c.stock_raw = [np.asarray(sl(xt), dtype=np.float32)]
+          if q["average"] is None:
+            c.oracle = [np.asarray(act(sl(xt)), dtype=np.float32)]
+          else:
+            area = int(np.prod(g["pool"]))
+            qr = np.float32(np.asarray(fresh_q(q["average"])(1.0 / area)))
+            qrecip[area] = qr
+            c.oracle = [np.asarray(act(sl(xt * np.float32(area)) * qr), dtype=np.float32)]
+        elif cls == "globalavgpool2d":
+          c.stock_raw = [np.asarray(sl(xt), dtype=np.float32)]
+          if q["average"] is None:
+            c.oracle = [np.asarray(act(sl(xt)), dtype=np.float32)]
+          else:
+            area = int(np.prod(c.geo["hw"]))      # of THIS call
+            qr = np.float32(np.asarray(fresh_q(q["average"])(1.0 / area)))
+            qrecip[area] = qr
+            ax = (1, 2) if G.df == "channels_last" else (2, 3)
+            s = np.sum(x.astype(np.float64), axis=ax, keepdims=g["keepdims"]).astype(np.float32)   # exact: short dyadics
+            c.oracle = [np.asarray(act(tf.constant(s * qr)), dtype=np.float32)]
+        else:
+          try:
+            sl.build(x.shape)
+            QWm = list(QW)
+            if cls == "conv2d" and G.mask is not None:
+              QWm[0] = QW[0] * G.mask.reshape(G.mask.shape + (1, 1))
+            sl.set_weights(QWm)
+            c.oracle = [np.asarray(act(sl(xt)), dtype=np.float32)]
+            sl.set_weights(W)
+            c.stock_raw = [np.asarray(sl(xt), dtype=np.float32)]
+          except Exception as e:  # pylint: disable=broad-except
+            raise core.InfraError("stock %s layer failed on %s: %s" % (cls, c.label, str(e)[:300]))
+      # -------------------------------------------------------------- the model's input line: one per OBJECT and
+      # weight epoch, with the whole list of calls made in it
+      quant = []
+      slots = SLOTS[cls]
+      for i, s in enumerate(slots):
+        qs = q.get(s)
+        if s == "average":
+          if qs is None:
+            quant.append(None)
+          else:
+            quant.append({"k": "table", "e": [[{"s": [], "d": [core.rj(F(1, a))]}, tj(np.float32(v).reshape(()))]
+                                              for a, v in sorted(qrecip.items())]})
+          continue
+        t = s in TRAINABLE.get(cls, [])
+        if i >= len(W):
+          quant.append(None if qs is None else qspec(qs, [], t))
+          continue
+        args = [W[i]]
+        if cls == "sepconv1d" and i < 2:
+          args = [W[i][None, ...], W[i]]      # the layer quantizes the kernel expanded to 4-D
+        quant.append(qspec(qs, args, t))
+      line = {"op": "layer", "cls": cls, "cfg": cfg_of(G), "xs": [tj(xs[pos]) for pos in members],
+              "weights": [tj(w) for w in W], "quant": quant, "actv": [qspec(q.get("act"))]}
+      if cls == "conv2d" and G.mask is not None:
+        line["mask"] = tj(G.mask.reshape(G.mask.shape + (1, 1)))
+      G.lines.append(line)
   finally:
     K.set_image_data_format(DEFAULT_FMT)
 
@@ -911,7 +964,14 @@ def run_recurrent(G):
     cells = [mk_cell() for _ in range(2 * len(G.cases))]
     model = None
     n_out = 3 if cls == "lstm" else 2
-    if G.mode == "functional":
+    if G.mode == "dynamic":
+      try:
+        ins = tf.keras.Input(shape=(None, g["in_dim"]))
+        model = tf.keras.Model(ins, list(ql(ins)))
+      except Exception as e:  # pylint: disable=broad-except
+        for c in G.cases:
+          catch(c, e)
+    elif G.mode == "functional":
       try:
         ins = [tf.keras.Input(shape=x.shape[1:]) for x in xs]
         outs = []
@@ -923,23 +983,39 @@ def run_recurrent(G):
           catch(c, e)
     else:
       ql.build(xs[0].shape)
-    W = [dy(rng, [int(v) for v in w.shape], 16, -20, 20) for w in ql.weights]
-    ql.set_weights(W)
+    def new_weights():
+      W_ = [dy(rng, [int(v) for v in w.shape], 16, -20, 20) for w in ql.weights]
+      ql.set_weights(W_)
+      return W_
+
+    W = new_weights()
     G.W = W
+    Ws = [W] * len(G.cases)      # the weight values in force at each call
+    ckw = {"training": G.forms["training"]} if "training" in G.forms else {}
     K.set_image_data_format(G.fmts[1])
     if G.mode == "functional":
       if model is not None:
         try:
-          ys = list(model([form_x(x, xform) for x in xs]))
+          ys = list(model([form_x(x, xform) for x in xs], **ckw))
           for k_, c in enumerate(G.cases):
             c.impl = [np.asarray(o, dtype=np.float32) for o in ys[k_ * n_out:(k_ + 1) * n_out]]
         except Exception as e:  # pylint: disable=broad-except
           for c in G.cases:
             catch(c, e)
+    elif G.mode == "dynamic":
+      for c, x in zip(G.cases, xs):
+        if model is not None:
+          try:
+            c.impl = [np.asarray(o, dtype=np.float32) for o in model(form_x(x, xform), **ckw)]
+          except Exception as e:  # pylint: disable=broad-except
+            catch(c, e)
     else:
       for c, x in zip(G.cases, xs):
+        if G.reweigh is not None and c.pos == G.reweigh:
+          W = new_weights()
+          Ws = Ws[:c.pos] + [W] * (len(G.cases) - c.pos)
         try:
-          outs = ql(form_x(x, xform))
+          outs = ql(form_x(x, xform), **ckw)
           c.impl = [np.asarray(o, dtype=np.float32) for o in outs]      # sequence of h, final h [, final c]
         except Exception as e:  # pylint: disable=broad-except
           catch(c, e)
@@ -947,7 +1023,6 @@ def run_recurrent(G):
     G.reported = [None if r is None else str(r) for r in rep]
     wq = [q["kernel"], q["recurrent"], q["bias"]][:len(W)]
     tr = [True, True, False]
-    QW = [apply_q(s, w, t) for s, w, t in zip(wq, W, tr)]
     sq = (lambda t: t) if q["state"] is None else fresh_q(q["state"])
 
     def stock_run(cell, x, weights, state_q):
@@ -962,14 +1037,17 @@ def run_recurrent(G):
         seq.append(np.asarray(out, dtype=np.float32))
       return [np.stack(seq, axis=1)] + [np.asarray(s, dtype=np.float32) for s in st]
 
-    quant = [qspec(s, [w], t) for s, w, t in zip(wq, W, tr)]
-    while len(quant) < 3:
-      quant.append(None if q["bias"] is None else qspec(q["bias"], []))
     if q["state"] is not None and q["state"] not in SPEC:
       raise core.InfraError("state quantizer without element-wise model")
-    quant.append(qspec(q["state"]))
     G.lines = []
     for k_, (c, x) in enumerate(zip(G.cases, xs)):
+      c.line_off, c.line_pos = k_, 0
+      W = Ws[k_]
+      QW = [apply_q(s, w, t) for s, w, t in zip(wq, W, tr)]
+      quant = [qspec(s, [w], t) for s, w, t in zip(wq, W, tr)]
+      while len(quant) < 3:
+        quant.append(None if q["bias"] is None else qspec(q["bias"], []))
+      quant.append(qspec(q["state"]))
       try:
         c.oracle = stock_run(cells[2 * k_], x, QW, sq)
       except Exception as e:  # pylint: disable=broad-except
@@ -990,6 +1068,10 @@ def site_of(c):
   grid, a regression there is reported under its own key — and of the recorded finding of the unchanged code
   (QConv1D causal x channels_first)"""
   g = c.geo
+  if c.cls == "globalavgpool2d" and c.group.mode == "dynamic" and c.q["average"] is not None:
+    return "dynamic-spatial-dims"
+  if c.cls == "avgpool2d" and c.group.mode != "eager" and (c.q["average"] or "").startswith("quantized_po2"):
+    return "po2-average-in-graph"
   if c.cls == "conv1d" and g["padding"] == "causal" and c.group.df == "channels_first" and g["kernel"] > 1:
     return "causal-channels-first"
   if c.cls == "sepconv1d" and c.group.fmts[1] == "channels_first" and \
@@ -1008,7 +1090,12 @@ def site_of(c):
   return None
 
 
-RECORDED_SITES = ("causal-channels-first", "expanded-kernel-auto-scale")
+RECORDED_SITES = ("causal-channels-first", "expanded-kernel-auto-scale", "dynamic-spatial-dims", "po2-average-in-graph")
+# symbolic shapes and graph-mode dtypes are outside the Lean model (its tensors are concrete rationals): these sites
+# are mirrored by harness rules — "the pool area of unknown dims is None * None" -> TypeError while the functional
+# model is being built; "1.0 / np.prod(pool_size) is a numpy float64, quantized_po2 mixes it with float32 constants in
+# tf.where" -> TypeError in graph mode (eager mode converts)
+HARNESS_MIRRORED = {"dynamic-spatial-dims": "TypeError", "po2-average-in-graph": "TypeError"}
 
 
 def same(a, b):
@@ -1059,11 +1146,18 @@ def run(run: core.Run, tier: str):
       run.count("objects_called_%d_times" % len(G.cases))
     if G.mode == "functional":
       run.count("objects_shared_in_functional_model")
+    if G.mode == "dynamic":
+      run.count("objects_in_model_with_unknown_spatial_or_time_dims")
+    if G.reweigh is not None:
+      run.count("objects_with_set_weights_between_calls")
     if G.fmts != FMTS0:
       run.count("order_construct_%s_call_%s" % (G.fmts[0][9:], G.fmts[1][9:]))
     for k, v in G.forms.items():
       run.count("form_%s_%s" % (k, v))
     for c in G.cases:
+      if G.skip:
+        run.case(c.label, nontrivial=False)
+        continue
       nontriv = any(v is not None for v in c.q.values())
       run.case(c.label, nontrivial=nontriv,
                sample={"class": c.cls, "geometry": c.geo, "quantizers": c.q, "stream": c.stream,
@@ -1095,9 +1189,25 @@ def run(run: core.Run, tier: str):
 
   for G, li in zip(groups, index):
     rnn = G.cls in RNN
+    # ------------------------------------------------------------ constructor defaults (per object)
+    if G.ctor_df is not None:
+      run.compared += 1
+      if G.ctor_df[0] != G.df:
+        run.disagree("resolved-data-format", G.cases[0].label, G.ctor_df[0], G.df)
+      if G.ctor_df[0] != G.ctor_df[1] or G.skip:
+        key = {"cls": G.cls, "site": "default-data-format", "stream": G.stream}
+        run.violate("ctor_default", key,
+                    {"case": G.cases[0].label, "quantized_layer_data_format": G.ctor_df[0],
+                     "stock_layer_data_format": G.ctor_df[1], "image_data_format_at_construction": G.fmts[0]},
+                    mirrored=(G.ctor_df[0] == G.df))
+      else:
+        run.count("ctor_default_same")
+    if G.skip:
+      continue
     o_obj = outs[li]
     for c in G.cases:
-      o = outs[li + c.pos] if rnn else o_obj["calls"][c.pos]
+      o_line = outs[li + c.line_off]
+      o = o_line if rnn else o_line["calls"][c.line_pos]
       key0 = {"cls": c.cls}
       if c.stream != "structured":
         key0["stream"] = c.stream
@@ -1123,7 +1233,7 @@ def run(run: core.Run, tier: str):
       else:
         shp, data, m_ok = model_tensor(o["y"])
         model = [(shp, data)] if m_ok else None
-        if not o_obj.get("build_free", False):
+        if not o_line.get("build_free", False):
           run.disagree("build-free", c.label, "-", "the layer term mentions a build-time node")
       if not o.get("dropin", False) and m_ok and site not in RECORDED_SITES:
         # the instance of the drop-in theorem evaluated by the driver itself must hold
@@ -1134,7 +1244,9 @@ def run(run: core.Run, tier: str):
         run.count("impl_raises_" + c.err[0])
         # a recorded site is mirrored when the model rejects the same instance (shape error in the term)
         mir = site in RECORDED_SITES and not m_ok
-        if site in RECORDED_SITES and m_ok:
+        if site in HARNESS_MIRRORED:
+          mir = c.err[0] == HARNESS_MIRRORED[site]
+        elif site in RECORDED_SITES and m_ok:
           run.disagree("model-accepts", c.label, "raises " + c.err[0], "model evaluates the term")
         run.violate("runs", dict(key0, error=c.err[0]), {"case": c.label, "error": list(c.err)}, mirrored=mir)
         continue
@@ -1183,19 +1295,6 @@ def run(run: core.Run, tier: str):
         run.count("no_quantizer_cases")
         if not all(same(a, b) for a, b in zip(c.impl, c.stock_raw)):
           run.violate("no_quantizer", key0, {"case": c.label}, mirrored=mirrored)
-    # ------------------------------------------------------------ constructor defaults (per object)
-    if G.ctor_df is not None:
-      run.compared += 1
-      if G.ctor_df[0] != G.df:
-        run.disagree("resolved-data-format", G.cases[0].label, G.ctor_df[0], G.df)
-      if G.ctor_df[0] != G.ctor_df[1]:
-        key = {"cls": G.cls, "site": "default-data-format", "stream": G.stream}
-        run.violate("ctor_default", key,
-                    {"case": G.cases[0].label, "quantized_layer_data_format": G.ctor_df[0],
-                     "stock_layer_data_format": G.ctor_df[1], "image_data_format_at_construction": G.fmts[0]},
-                    mirrored=(G.ctor_df[0] == G.df))
-      else:
-        run.count("ctor_default_same")
     # ------------------------------------------------------------ tie 3: get_quantizers (per object)
     if G.cls != "activation":
       c = G.cases[0]
